@@ -13,6 +13,8 @@ package z
 //@ spec opaque GcHasV(bs []uint64, shift, size, setLocs, hash uint64) bool = forall i uint64 :: i < setLocs ==> GcBitS(bs, GcPosV(shift, size, hash, i))
 //@ spec GcWfBloom(bl *Bloom) bool = bl != nil && len(bl.bitset) > 0 && bl.size == uint64(len(bl.bitset))*64-1 && GcMaskOK()
 //@ spec GcBit(bl *Bloom, idx uint64) bool = GcBitS(bl.bitset, idx)
+//@ spec GcBloomBits(bl *Bloom) []uint64 = bl.bitset
+//@ spec GcBloomSize(bl *Bloom) uint64 = bl.size
 //@ spec GcHas(bl *Bloom, hash uint64) bool = GcHasV(bl.bitset, bl.shift, bl.size, bl.setLocs, hash)
 
 //@ lemma [C19] GcPosInRange(shift, size, hash, i uint64): GcPosV(shift, size, hash, i) <= size
@@ -69,3 +71,10 @@ package z
 //@   loop 1 invariant size > 1 ==> size/2 < ite(ui64 < 512, 512, ui64)
 //@   ensures [C19] #pow2 exponent <= 63 && size == uint64(1)<<exponent
 //@   ensures [C19] #bound size >= ui64 && size >= 512 && (size == 512 || size/2 < ui64)
+
+//@ func NewBloomFilter(params ...float64) (bloomfilter *Bloom)
+//@   reveal GcBitS
+//@   requires GcMaskOK() && len(params) == 2
+//@   ensures [C19] #wf GcWfBloom(bloomfilter)
+//@   ensures [C19] #empty forall x uint64 :: x <= bloomfilter.size ==> !GcBit(bloomfilter, x)
+//@   ensures [C19] #shape bloomfilter.size+1 == uint64(1)<<bloomfilter.sizeExp && bloomfilter.shift == 64-bloomfilter.sizeExp && bloomfilter.size >= 511
